@@ -4,7 +4,7 @@
    decoder model, with the bitwise CRC-16/ARC of Spec/CrcSpec.v. *)
 From Coq Require Import NArith ZArith List Bool String.
 From FitV Require Import Model.Values Model.Bytes Model.Header Model.Route Model.Encode
-  Spec.CrcSpec Spec.Grammar Spec.RoundTrip Proofs.EncodeProofs Proofs.C05Grammar Proofs.EncExamples.
+  Spec.CrcSpec Spec.Grammar Spec.RoundTrip Proofs.EncodeProofs Proofs.C05Grammar Proofs.C05Wire Proofs.EncExamples.
 Import ListNotations.
 Local Open Scope N_scope.
 
@@ -44,14 +44,41 @@ Print Assumptions C05_encode_grammar.
 Theorem C05_profile_msgs_ok : forallb msg_ok Gen.ProfileData.messages = true.
 Proof. exact profile_msgs_ok. Qed.
 
+(* values: for every well-formed File whose arrays are shorter than 256 elements and whose times lie
+   within int64 nanoseconds of the FIT epoch (file_sane), every field of every record on the wire
+   matches the struct field of the File it was written from (field_matches of Spec/Grammar.v:
+   integers by value in the record's byte order, strings with their terminator and zero padding,
+   arrays element by element with invalid padding up to the profile length, times as seconds since
+   the FIT epoch when whole and in range, local times by wall clock, coordinates as semicircles).
+   What is still decided per explored File only: that no set field is omitted from a record and no
+   field number occurs twice (absent_unset / nodup_n of record_matches) *)
+Theorem C05_encode_wire_fields : forall f be bs f',
+  wf_file f = true -> wf_header (f_header f) = true -> file_sane f = true ->
+  encode f be = EOk (bs, f') -> N.of_nat (List.length bs) < 4294967296 ->
+  exists recs, grammar bs = Some recs /\
+    Forall2 (fun m r => gr_gmn r = m_num m /\ gr_be r = be /\ fields_match m r = true) (file_msgs f) recs.
+Proof. exact encode_wire_fields. Qed.
+Print Assumptions C05_encode_wire_fields.
+
+(* FULL STATEMENT (refuted without file_sane): an array of 256 elements is written as all-invalid,
+   because writeField computes byte(value.Len()); candidate finding, see docs/notes-C05C06C07.md *)
+Theorem C05_encode_wire_array256_refuted :
+  exists be pf ty v p, write_field be pf ty v = EOk p /\ val_has_type ty v = true /\
+    field_matches be pf (Model.Base.fit_base (pf_t pf)) p v = false.
+Proof. exact encode_wire_array256_refuted. Qed.
+
+Theorem C05_profile_msgs_ok2 : forallb msg_ok2 Gen.ProfileData.messages = true.
+Proof. exact profile_msgs_ok2. Qed.
+
 (* non-vacuity: a well-formed activity File with two records encodes, and the
    complete recogniser (records and wire values included) accepts the bytes *)
 Example C05_example :
   wf_file ex_file = true /\ wf_header (f_header ex_file) = true /\
   (exists bs f', encode ex_file true = EOk (bs, f') /\ N.of_nat (List.length bs) < 4294967296 /\
-     exists recs, grammar bs = Some recs /\ wire_ok ex_file recs = true /\ List.length recs = 3%nat).
+     exists recs, grammar bs = Some recs /\ wire_ok ex_file recs = true /\ List.length recs = 3%nat) /\
+  file_sane ex_file = true.
 Proof.
-  split; [vm_compute; reflexivity|]. split; [vm_compute; reflexivity|].
+  split; [vm_compute; reflexivity|]. split; [vm_compute; reflexivity|]. split; [|vm_compute; reflexivity].
   destruct (encode ex_file true) as [[bs f']| |] eqn:E; [|vm_compute in E; discriminate|vm_compute in E; discriminate].
   exists bs, f'. split; [reflexivity|].
   assert (Hb : bs = ex_encoded true) by (unfold ex_encoded; now rewrite E).
